@@ -427,6 +427,16 @@ def r3(P: Project, R: Report) -> None:
             for k, v in zip(n.keys, n.values):
                 if isinstance(k, ast.Constant) and k.value == "code":
                     codes.append(try_fold(P, rej.module, v))
+    if not codes:
+        # built through an error helper (`create_error_data(INVALID_REQUEST, …)`): the code is the argument that folds to a JSON-RPC code
+        for n in walk_local(rej.node):
+            if isinstance(n, ast.Call):
+                for a_ in list(n.args) + [k_.value for k_ in n.keywords]:
+                    v_ = try_fold(P, rej.module, a_)
+                    if isinstance(v_, int) and not isinstance(v_, bool) and -32768 <= v_ <= -32000:
+                        codes.append(v_)
+    if not codes:
+        raise AnalysisError(f"{rej.module.rel}: the rejection envelope of {rej.qual} is built in a shape this rule cannot read (no `code` member or code argument found)")
     R.ob("R3", "rejection error code is -32600", codes == [-32600], rej.where, f"codes found {codes}")
     # the writer used for the rejection performs exactly one stdin write per call
     for st, _n in rejected[:1]:
